@@ -4,6 +4,7 @@ import os, json, random, hashlib, time
 import tlc as T
 
 VERIF = os.path.dirname(os.path.dirname(os.path.abspath(__file__)))
+BUILD = os.environ.get("VERIF_BUILD") or os.path.join(VERIF, "build")
 
 ALL_LOGICS = ["QF_BOOL", "QF_UF", "QF_LRA", "QF_LIA", "QF_RDL", "QF_IDL", "QF_UFLRA", "QF_UFLIA", "QF_UFIDL",
               "QF_UFRDL", "QF_AX", "QF_ALIA", "QF_AUFLIA"]
@@ -40,7 +41,7 @@ def spec_hash(mods):
 def design_results(pid, tier, plan):
     """run (or fetch from the per-spec-hash cache) the exhaustive configurations of the property"""
     out = {"states": 0, "transitions": 0, "configs": []}
-    cache_dir = os.path.join(VERIF, "build", "mc_cache")
+    cache_dir = os.path.join(BUILD, "mc_cache")
     os.makedirs(cache_dir, exist_ok=True)
     h = spec_hash(None)
     for mc in plan.get("mc", []):
@@ -74,7 +75,7 @@ def design_results(pid, tier, plan):
         out["transitions"] += r["generated"]
         if not r["ok"] and not r["to"] and mc.get("owner", True):
             # a design-level property fails in the exhaustive configuration
-            d = os.path.join(VERIF, "build", "replay", pid, "design_" + mc["module"])
+            d = os.path.join(BUILD, "replay", pid, "design_" + mc["module"])
             os.makedirs(d, exist_ok=True)
             with open(os.path.join(d, "tlc.out"), "w") as f:
                 f.write(r.get("out", ""))
@@ -228,6 +229,7 @@ PLANS["C20"] = {
             "must be a function of (script, configuration)",
 }
 PLANS["C23"] = {
+    "confirm_tries": 5,
     "jobs": lambda seed, tier: spread(seed, "C23", N(tier, 140, 2500), ALL_LOGICS, "rerun", third=(tier != "quick")),
     "level": "other",
     "rule": "every script is executed twice (thorough: three times) with address-space randomisation on, different environment "
